@@ -1,4 +1,4 @@
-CONSTANTS Shapes = {"leaf", "slice2", "array2", "mapS", "emptySlice", "nilSlice", "emptyMap", "nilMap", "sliceOfSlice", "mapOfSlice", "ptr", "ptrSlice", "ptrMap", "sliceOfPtr", "mapOfPtr", "ptrStruct", "mapKey", "genericV", "outerPS", "outerPI", "outerInX", "outerPInX", "structAN", "outerPAI", "outerF32", "outerR", "outerNamed", "outerU8", "outerI64", "outerZero", "outerPInZero", "outerMSZero", "outerSAZero", "outerAll", "mapTwoPkgs", "crossName", "crossB", "crossPBZero", "crossSBZero", "crossABZero", "crossAB", "crossMBZero", "crossBS", "crossEmpty"}
+CONSTANTS Shapes = {"leaf", "slice2", "array2", "mapS", "emptySlice", "nilSlice", "emptyMap", "nilMap", "sliceOfSlice", "mapOfSlice", "ptr", "ptrSlice", "ptrMap", "sliceOfPtr", "mapOfPtr", "ptrStruct", "mapKey", "genericV", "outerPS", "outerPI", "outerInX", "outerPInX", "structAN", "outerPAI", "outerF32", "outerR", "outerNamed", "outerU8", "outerI64", "outerZero", "outerPInZero", "outerMSZero", "outerSAZero", "outerAll", "mapTwoPkgs", "crossName", "crossB", "crossPBZero", "crossSBZero", "crossABZero", "crossAB", "crossMBZero", "crossBS", "crossEmpty", "chainDeep"}
 INIT GenInit
 NEXT GenNone
 INVARIANT EmitCase
